@@ -336,6 +336,9 @@ type Listener struct {
 	nextID  int
 	accepts int
 	hook    func(op string)
+	// acceptErrs: errors the next Accept calls report before looking at the queue (descriptor table full, connection
+	// reset before it was accepted, ...): a listener stays usable after them
+	acceptErrs []error
 }
 
 func newListener() *Listener { return &Listener{wake: make(chan struct{}, 1)} }
@@ -349,6 +352,12 @@ func (l *Listener) Accept() (net.Conn, error) {
 		if l.closed {
 			l.mu.Unlock()
 			return nil, net.ErrClosed
+		}
+		if len(l.acceptErrs) > 0 {
+			err := l.acceptErrs[0]
+			l.acceptErrs = l.acceptErrs[1:]
+			l.mu.Unlock()
+			return nil, err
 		}
 		if len(l.queue) > 0 {
 			c := l.queue[0]
@@ -399,3 +408,21 @@ func (l *Listener) Dial(remote net.Addr) *Conn {
 func (l *Listener) Backlog() int { l.mu.Lock(); defer l.mu.Unlock(); return len(l.queue) }
 
 var errInjected = errors.New("injected I/O error")
+
+// tempAcceptErr is what accept(2) failing with EMFILE / ENFILE / ECONNABORTED looks like through the net package.
+func tempAcceptErr(errno syscall.Errno) error {
+	return &net.OpError{Op: "accept", Net: "tcp", Addr: &net.TCPAddr{IP: net.IPv4(127, 0, 0, 1), Port: 38008}, Err: os.NewSyscallError("accept4", errno)}
+}
+
+// FailAccepts makes the next n Accept calls fail with err and wakes the accept loop.
+func (l *Listener) FailAccepts(n int, err error) {
+	l.mu.Lock()
+	for i := 0; i < n; i++ {
+		l.acceptErrs = append(l.acceptErrs, err)
+	}
+	l.mu.Unlock()
+	select {
+	case l.wake <- struct{}{}:
+	default:
+	}
+}
